@@ -160,9 +160,10 @@ def axiom_audit(modules):
     ok, problems = [], []
     seen = {}
     # output: 'X' depends on axioms: [a, b]   |   'X' does not depend on any axioms
-    for m in re.finditer(r"'([^']+)' depends on axioms: \[([^\]]*)\]", out.replace("\n ", " ")):
+    flat = out.replace("\n ", " ")
+    for m in re.finditer(r"^'(.+)' depends on axioms: \[([^\]]*)\]", flat, re.M):
         seen[m.group(1)] = set(x.strip() for x in m.group(2).split(",") if x.strip())
-    for m in re.finditer(r"'([^']+)' does not depend on any axioms", out):
+    for m in re.finditer(r"^'(.+)' does not depend on any axioms", flat, re.M):
         seen[m.group(1)] = set()
     for n in names:
         if n not in seen:
